@@ -145,6 +145,16 @@ func e1BaseGrid(tier string) []e1Grid {
 		{mcfg("fmp4", false, 3, "h264b"), "reorder"},
 		{mcfg("ll", false, 7, "h264b"), "reorder"},
 	}
+	// other SegmentMinDuration / PartMinDuration / SegmentCount values
+	with := func(c muxCfg, segMS, partMS int) muxCfg {
+		c.SegMinMS, c.PartMS = segMS, partMS
+		return c
+	}
+	g = append(g,
+		e1Grid{with(mcfg("ll", false, 8, "h264"), 500, 100), "timing"},
+		e1Grid{with(mcfg("fmp4", false, 4, "h264", "aac48"), 2000, 0), "inter"},
+		e1Grid{with(mcfg("mpegts", false, 5, "h264"), 250, 0), "timing"},
+	)
 	if tier == "thorough" {
 		g = append(g,
 			e1Grid{mcfg("fmp4", false, 5, "vp9"), "timing"},
@@ -198,5 +208,9 @@ func e1Scens(prop, tier string) []e1Scen {
 		}
 		out = append(out, e1Shard(per, shards)...)
 	}
+	// audio-only MPEG-TS starts a new segment only after 100 writes: periodic words long enough for four segments
+	tsa := mcfg("mpegts", false, 3, "aac44")
+	per := e1Scen{Prop: prop, Cfg: tsa, Alpha: alphaAudio(tsa), Mode: "periodic", Period: 2, Len: 430, Name: "ts-audio-only-periodic"}
+	out = append(out, e1Shard(per, shards)...)
 	return out
 }
